@@ -314,6 +314,25 @@ def check_params(ctx, num=5):
         cs = calls_named(f, "get_workload")
         ok = len(cs) == 1 and len(cs[0].args) == 1 and norm.U(cs[0].args[0]) == f"{params_name(f)}['ticks_per_second']"
         ctx.ob(num, "K6", f"{cmd} replays the trace at the configuration's own ticks_per_second", ok, f, cs[0] if cs else f.node, detail=f"{[norm.U(c) for c in cs]}")
+    # `run` and `gentrace` complete the same parameter file with the same defaults and hand the result to WorkloadGenerator(**params): neither
+    # side may adjust an entry on its own afterwards (the other side would generate a different workload from the same file)
+    for rel, q in ((SIM, "run_simulator"), (MAIN, "gentrace_command"), (MAIN, "mkregression_command")):
+        f = P.fn(rel, q)
+        pn = params_name(f)
+        stores = []
+        for n in own_nodes(f.node):
+            tg = []
+            if isinstance(n, (ast.Assign, ast.Delete)):
+                tg = n.targets
+            elif isinstance(n, (ast.AugAssign, ast.AnnAssign)):
+                tg = [n.target]
+            for t in tg:
+                if isinstance(t, ast.Subscript) and norm.is_name(t.value, pn):
+                    stores.append(n)
+            if isinstance(n, ast.Call) and isinstance(n.func, ast.Attribute) and norm.is_name(n.func.value, pn) and n.func.attr in ("update", "pop", "setdefault", "clear", "popitem"):
+                stores.append(n)
+        ctx.ob(num, "K1", f"{q} uses the completed parameters as they are (no entry is rewritten before the generator is built from them)", not stores, f,
+               stores[0] if stores else f.node, construct=f"no store to {pn}[..]", detail=f"{[stmt_text(x)[:80] for x in stores]}" if stores else "no subscript store / update on the parameter dict")
     gw = P.fn(WL, "WorkloadReader.get_workload")
     ctx.touch(gw)
     rs = [r for r in own_nodes(gw.node) if isinstance(r, ast.Return)]
